@@ -345,6 +345,34 @@ def run(out: core.Outcome) -> None:
             if fails:
                 out.violation({"scenario": "from_storage-long", "frames": nlong, "num_processes": procs, "fails": fails})
         out.parts["long_storages"] = {"frames_vs_processes": "7/2, 11/3, (2 cpu + 5)/auto"}
+        # ---------------- (D) refine_droplets called directly: candidates given as a list, as an Emulsion and as one-shot
+        # iterables (generator, iterator, filter); fits that stop on their evaluation budget; repeated runs
+        from droplets.image_analysis import refine_droplets
+        dgrid = CartesianGrid([[0, 24], [0, 16]], [48, 32], periodic=[False, True])
+        truth = [DiffuseDroplet(np.array([6.0, 8.0]), 3.0, 1.0), DiffuseDroplet(np.array([17.5, 7.3]), 3.6, 1.2),
+                 DiffuseDroplet(np.array([11.8, 15.6]), 2.2, 0.8)]
+        dfield = Emulsion(truth).get_phasefield(dgrid)
+        dfield.data += 0.02 * np.random.default_rng(5).standard_normal(dfield.data.shape)
+
+        def cands():
+            return [DiffuseDroplet(np.array(d.position) + 0.3, d.radius * 0.9, 1.0) for d in truth]
+
+        for budget in (None, 3):
+            kw = {} if budget is None else {"least_squares_params": {"max_nfev": budget}}
+            ref = list(refine_droplets(dfield, cands(), num_processes=1, **copy.deepcopy(kw)))
+            ref2 = list(refine_droplets(dfield, cands(), num_processes=1, **copy.deepcopy(kw)))
+            variants = {"repeated serial run": ref2}
+            for procs in (1, 2, 3):
+                variants[f"list, {procs} processes"] = list(refine_droplets(dfield, cands(), num_processes=procs, **copy.deepcopy(kw)))
+                variants[f"generator, {procs} processes"] = list(refine_droplets(dfield, (c for c in cands()), num_processes=procs, **copy.deepcopy(kw)))
+                variants[f"iterator, {procs} processes"] = list(refine_droplets(dfield, iter(cands()), num_processes=procs, **copy.deepcopy(kw)))
+                variants[f"filter, {procs} processes"] = list(refine_droplets(dfield, filter(lambda c: True, cands()), num_processes=procs, **copy.deepcopy(kw)))
+                variants[f"Emulsion, {procs} processes"] = list(refine_droplets(dfield, Emulsion(cands()), num_processes=procs, **copy.deepcopy(kw)))
+            for name_v, res in variants.items():
+                out.evaluations += 1
+                if len(res) != len(ref) or not all(_same([a], [b]) for a, b in zip(res, ref)):
+                    out.violation({"scenario": "refine_droplets-direct", "max_nfev": budget, "variant": name_v,
+                                   "fails": [f"{len(res)} droplets, serial list run {len(ref)}; or parameters differ"]})
     # ---- code -> spec: validate the recorded schedules
     for key, trs in traces.items():
         n, w, none = key
